@@ -366,7 +366,7 @@ func (s *Solver) getModel() Model {
 	m := Model{}
 	var names []string
 	for _, v := range s.ctx.Vars {
-		if s.em.emitted[v.ID] && v.Sort != SFP {
+		if v.ID < len(s.em.emitted) && s.em.emitted[v.ID] && v.Sort != SFP {
 			names = append(names, quote(v.Name))
 		}
 	}
